@@ -521,7 +521,10 @@ func (b *Builder) AllComparisonSeries(existing []*ComparisonSeries, dupeHow int)
 					}
 
 					hp, ok := cs.HashPairs[serString]
-					if !ok {
+					if !ok || (hp.DenHash == "" && tr.baselineHashString != "") {
+						// Prefer a known baseline hash over that of a
+						// trial without baseline, so that the pair does
+						// not depend on map iteration order.
 						cs.HashPairs[serString] = ComparisonHashes{NumHash: hashString, DenHash: tr.baselineHashString}
 					} else {
 						if hp.NumHash != hashString || hp.DenHash != tr.baselineHashString {
